@@ -46,7 +46,11 @@ func callerErrPath(p, name, mountSubPath string) string {
 		return path.Join(name, p)
 	case strings.HasSuffix(mountSubPath, "/"+name):
 		// inside a Sub FS, strip its directory
-		return strings.TrimPrefix(p, strings.TrimSuffix(mountSubPath, name))
+		dir := strings.TrimSuffix(mountSubPath, "/"+name)
+		if p == dir {
+			return "."
+		}
+		return strings.TrimPrefix(p, dir+"/")
 	case strings.HasSuffix(name, "/"+mountSubPath):
 		// inside a mounted FS, prepend its mount point
 		return path.Join(strings.TrimSuffix(name, mountSubPath), p)
